@@ -2,8 +2,9 @@
    arm, the clean-up `for`, `finalize`, the returned status, and the simulation theorem
    `convert_to_archive_sim` between gen/Src3r.v (translated from /repo on every run) and
    `Repair.repair`.  See SrcTie3Repair.v for the premises and the trusted link. *)
+From MLA Require Import Limit.
 From MLA Require Import Base Stream Blocks Writer Repair SrcTie2 RepairProofs3 SrcTie3Repair.
-From MLAGen Require Src2 Src3r.
+From MLAGen Require Src Src2 Src3r.
 From Coq Require Import ZifyBool ZifyNat ZifyN Lia.
 Open Scope N_scope.
 
@@ -35,6 +36,7 @@ Definition status_of (e : Src3r.FailSafeReadError) : fstatus * list bytes :=
   match e with Src3r.UnfinishedFiles fs e' => (abs_status e', fs) | _ => (abs_status e, []) end.
 
 Section Loop.
+  Context {LIM : Limit}.
   Variables FNMAX CACHE : N.
   Variables T_START T_CONTENT T_EOA T_EOF : N.
   Variable H : bytes -> bytes.
@@ -297,7 +299,7 @@ End Loop.
 
 (* the writer `ArchiveWriter::from_config` builds *)
 Definition aw_init : Src2.ArchiveWriter := Src2.mkAW [] (Src2.OpenedFiles [] []) [] [] 0 0.
-Theorem convert_to_archive_sim_init FNMAX CACHE T_START T_CONTENT T_EOA T_EOF H S :
+Theorem convert_to_archive_sim_init {LIM : Limit} FNMAX CACHE T_START T_CONTENT T_EOA T_EOF H S :
   0 < CACHE -> RdBounded S -> forall fuel s0,
   match repair FNMAX CACHE T_START T_CONTENT T_EOA T_EOF H S fuel s0 w_init with
   | Ok (status, unfinished, out2) =>
@@ -323,7 +325,8 @@ Definition ex_src : bytes :=
   [0] ++ le64 5 ++ le64 1 ++ [97] ++ [1] ++ le64 5 ++ le64 5 ++ [1; 2; 3; 4; 5] ++ [1] ++ le64 5 ++ le64 9 ++ [6; 7].
 Example convert_to_archive_sim_nonvacuous :
   RdBounded (Cursor ex_src) /\
-  exists l, Src3r.convert_to_archive 48 4 0 1 254 255 (fun _ => repeat 0 32) (footer_ser (fun f => f)) (fun _ => Ok tt) (Cursor ex_src)
+  exists l, Src3r.convert_to_archive 48 4 0 1 254 255 (fun _ => repeat 0 32)
+              (footer_ser (LIM := MLAGen.Src.BINCODE_MAX_DESERIALIZE_prod) (fun f => f)) (fun _ => Ok tt) (Cursor ex_src)
               (block_from 48 0 1 254 255 (Cursor ex_src)) 20 0 aw_init
             = (l, Ok (Src3r.UnfinishedFiles [[97]] Src3r.UnexpectedEOFOnNextBlock)) /\
             w_files (absW (Src3r.l_output _ l)) = [([97], 0)] /\
